@@ -27,6 +27,7 @@ pub use logits::Logits;
 #[cfg(rten_verif)]
 #[doc(hidden)]
 pub mod verif {
+    pub use crate::filter::verif_hooks::simd_topk_with_isa;
     pub use crate::sampler::verif_hooks::{multinomial, softmax_probs};
     pub use fastrand;
 }
